@@ -203,11 +203,20 @@ def main():
                     changed = True
         return out
     pool_txt = []
+    bodies = []
     for i in range(6):
         sel = prng.sample(tops, prng.randint(1, 3))
         body = closure(sel)
         prng.shuffle(body)
-        lines_ = ev + (["FastCoherentSum::UseCartesian 1"] if i in (1, 4) else []) + body + rest
+        if i == 5:
+            body = list(bodies[0])          # the same lines as file 0 ...
+        bodies.append(body)
+        evi = list(ev)
+        if i in (2, 5):
+            # ... under an event type that lists the same final state in another order (the index permutations differ)
+            w = ev[0].split()
+            evi = [" ".join(w[:2] + [w[3], w[5], w[2], w[4]])] + ev[1:]
+        lines_ = evi + (["FastCoherentSum::UseCartesian 1"] if i in (1, 4) else []) + body + rest
         pool_txt.append("\n".join(lines_) + "\n")
     files = []
     for i, t in enumerate(pool_txt):
@@ -268,7 +277,7 @@ Definition pid_of (n : string) : option Z := pd_get n amp_names.
         if [x[0] for x in a] != [x[0] for x in sr[0][0]]:
             hits.append((probe, f"output differs between hash seeds 0 and {s} beyond the order of independent declarations"))
     ck.cov["distinct_nontrivial"] = len({json.dumps(h["ops"]) for h in hists if len(h["ops"]) > 1})
-    ck.cov["rule"] = ("pool of 6 generated option files (two with the coherent-sum option); histories: random pairs and random sequences of "
+    ck.cov["rule"] = ("pool of 6 generated option files (two with the coherent-sum option, two whose event type lists the final state in another order, one of them with the lines of file 0); histories: random pairs and random sequences of "
                       "3..8 calls over {read by each of the 3 classes, convert to C++, convert to Python} x pool; each call compared with "
                       "the same call alone in a fresh interpreter; class-level state after each call compared with the model; hash seeds")
     ck.cov["samples"] = [hists[0]["ops"], hists[-1]["ops"]]
